@@ -144,6 +144,58 @@ def busy_destination_scenario(rng, res, count):
     return n
 
 
+def dir_to_file_scenario(rng, res, count):
+    """C09 "the same command run again reaches what an uninterrupted run reaches" where the destination holds a DIRECTORY of stale
+    files (`report/old-1`, `report/old-2`) at a path where the source has a FILE (`report`), with `--delete`. Whatever an
+    uninterrupted run makes of that (today: the file cannot be delivered, exit 1, the stale files are removed), a run killed before
+    any of its unlink / rmdir / rename / mkdir calls and then repeated ends with the same exit status and the same files (seed
+    C09-O: deletions first, then the directories emptied by THIS run's deletions pruned — after a kill between the last unlink and
+    the rmdir no later run prunes the directory, and the file can never be delivered)."""
+    src = {"report": b"the report, now a file\n", "keep.txt": b"kept\n", "n/x.txt": b"x new\n"}
+    dst = {"report/old-1": b"stale 1\n", "report/old-2": b"stale 2\n", "keep.txt": b"kept\n", "n/x.txt": b"x old\n"}
+    n = 0
+    for direction in ("local", "pull"):
+        with Sandbox("C09d2f") as sb:
+            T, W = sb.path("T"), sb.path("W")
+            whome = os.path.join(W, "home"); os.makedirs(whome)
+            sb.env["HOME"] = whome; sb.env["SSH_STUB_HOME"] = whome
+            if direction == "local":
+                sroot, droot = os.path.join(W, "src"), os.path.join(W, "dst"); sarg = sroot
+            else:
+                sroot, droot = os.path.join(whome, "rsrc"), os.path.join(W, "dst"); sarg = f"{HOST}:rsrc"
+            write_tree(sroot, src, {k: 1_650_000_000 + i for i, k in enumerate(sorted(src))})
+            write_tree(droot, dst, {"keep.txt": 1_650_000_000})
+            os.utime(os.path.join(droot, "keep.txt"), (1_650_000_000 + sorted(src).index("keep.txt"), 1_650_000_000 + sorted(src).index("keep.txt")))
+            shutil.copytree(W, T, symlinks=True)
+            def restore():
+                shutil.rmtree(W, ignore_errors=True); shutil.copytree(T, W, symlinks=True)
+            cmd = [CLI_BIN, "sync", "-r", "--delete", "--jobs", "1", sarg, droot]
+            r = subprocess.run(cmd, env=sb.env, cwd=sb.dir, stdout=subprocess.PIPE, stderr=subprocess.PIPE)
+            ref_ok, ref_tree = (r.returncode == 0), nonstaging(read_tree(droot))
+            ref_dirs = sorted(os.path.relpath(os.path.join(d_, x), droot) for d_, dn, _ in os.walk(droot) for x in dn)
+            for sc in ("unlink", "unlinkat", "rmdir", "rename", "mkdir"):
+                for j in range(1, 12):
+                    restore()
+                    kr = subprocess.run(["strace", "-f", "-b", "execve", "-qq", "-o", "/dev/null", "-e", f"trace={sc}", "-e", f"inject={sc}:signal=SIGKILL:when={j}"] + cmd,
+                                        env=sb.env, cwd=sb.dir, stdout=subprocess.PIPE, stderr=subprocess.PIPE)
+                    if kr.returncode >= 0:
+                        break                       # not killed: fewer than j such calls
+                    n += 1
+                    count(f"dir-to-file/{direction}/{sc}")
+                    time.sleep(0.05)
+                    after = nonstaging(read_tree(droot))
+                    rep = {"direction": direction, "killed_before": f"{sc} #{j}", "uninterrupted_run": {"exit_0": ref_ok, "files": sorted(ref_tree), "directories": ref_dirs}}
+                    for p_, c_ in after.items():
+                        if c_ != dst.get(p_) and c_ != src.get(p_):
+                            res["violations"].append(("truncated-or-mixed-file-at-live-path", f"after the kill, destination {p_} holds bytes that are neither its old nor the source's", rep))
+                    rr = subprocess.run(cmd, env=sb.env, cwd=sb.dir, stdout=subprocess.PIPE, stderr=subprocess.PIPE)
+                    again = nonstaging(read_tree(droot))
+                    if (rr.returncode == 0) != ref_ok or again != ref_tree:
+                        diff = sorted(p_ for p_ in set(again) | set(ref_tree) if again.get(p_) != ref_tree.get(p_))
+                        res["violations"].append(("rerun-does-not-reach-uninterrupted-result", f"directory-to-file change under --delete, killed before {sc} #{j}: the same command again exits {rr.returncode} (uninterrupted: {'0' if ref_ok else 'non-zero'}) and differs at {diff[:4]}; {rr.stderr.decode('utf-8', 'replace')[-160:]}", rep))
+    return n
+
+
 def delete_rerun_scenario(rng, res, count):
     """C09, second sentence: `sync -r --delete --jobs 4`, killed right before the rename of one file (its staging file is left
     behind and — not being filtered from the destination listing — is a planned delete of the next run). The same command again,
@@ -214,6 +266,7 @@ def run(pid, tier, seed, rundir, model_run):
             cut_stream_scenario(rng, res, count)
             delete_rerun_scenario(rng, res, count)
             nk += busy_destination_scenario(rng, res, count)
+            nk += dir_to_file_scenario(rng, res, count)
             continue
         if longlist:
             direction = "push"
